@@ -146,8 +146,12 @@ class Encoder:
                         elif abs(v) >= (1 << (so[1] - 1)) and v not in (0, 1):
                             raise IRUnsupported("constant %s does not fit reduced width" % s)
                 return Val(T.const_bv(v, so[1]))
-            if s in ("undef", "poison"):
-                return Val(T.const_bv(0, so[1]), T.TRUE if s == "poison" else T.FALSE)
+            if s == "poison":
+                return Val(T.const_bv(0, so[1]), T.TRUE)
+            if s == "undef":
+                # an arbitrary value (e.g. the contents of an object that was never initialised): a fresh unconstrained variable per use
+                self.fresh += 1
+                return Val(T.var("undef!%d" % self.fresh, T.BV(so[1])))
             if s == "zeroinitializer":
                 return Val(T.const_bv(0, so[1]))
         if ty in FP_TYPES:
